@@ -19,9 +19,11 @@ var c08Pool = []string{
 	"/", "/a", "/a/b", "/a/?b", "/a/?{o}", "/?a", "/?{r}", "/?a/b", "/a/?b/c", "/a//b", "//a", "/a/", "/{x}", "/{y}", "/{x}/{x}", "/{x}/{x: **}", "/{x: /a+/}-{x}", "/{x}/b/{x: /[0-9]+/}", "/{x}/{a: **}/b/{x}", "/r/{n: /[0-9]+/}/c/{n}", "/{x: /a+/}/{q: **}/{x}",
 	"/{a: **}/{b: **}/c", "/{a: **}/{b: **}", "/x/{a: **}", "/x/{b: **}", "/{a: **}/x", "/{b: **}/y", "/{a: **}/y", "/{a: **, capture: 2}/x", "/{**}", "/{q: /(/}", "/{q: /a)(b/}", "/{q: /[0-9/}/z",
 	"/{q: /(a|b)+/}/z", "/{q: /[0-9]+/}", "/{q: /[0-9]+/}/z", "/v{n: /[0-9]+/}", "/a/{p}/?{o}", "/a/b/?c", "/{x}-{z}", "/{x}.{x}",
+	"/x/{m: **}.json", "/x/v{m: **}",
 }
 
 type c08Seg struct {
+	mixedAll bool // a match-all bind next to other elements of the same segment
 	text     string
 	optional bool
 	empty    bool
@@ -38,7 +40,7 @@ func c08Parse(p *Parser, text string) ([]c08Seg, error) {
 	var out []c08Seg
 	for _, s := range ast.Segments {
 		cs := c08Seg{text: strings.TrimPrefix(strings.TrimPrefix(s.String(), "/"), "?"), optional: s.Optional, empty: len(s.Elements) == 0}
-		for i, e := range s.Elements {
+		for _, e := range s.Elements {
 			switch {
 			case e.BindIdent != nil:
 				cs.binds = append(cs.binds, *e.BindIdent)
@@ -52,8 +54,12 @@ func c08Parse(p *Parser, text string) ([]c08Seg, error) {
 						cs.regexes = append(cs.regexes, *prm.Value.Regex)
 					} else if k == 0 {
 						cs.binds = append(cs.binds, prm.Ident)
-						if i == 0 && prm.Value.Literal != nil && *prm.Value.Literal == "**" {
-							cs.all = true
+						if prm.Value.Literal != nil && *prm.Value.Literal == "**" {
+							if len(s.Elements) == 1 {
+								cs.all = true
+							} else {
+								cs.mixedAll = true
+							}
 						}
 					}
 				}
@@ -91,6 +97,11 @@ func c08Rules(earlier [][]c08Seg, segs []c08Seg) string {
 		}
 		if i < last && s.empty {
 			return "an inner segment is empty"
+		}
+		if s.mixedAll {
+			// a segment is static, a placeholder, regex-constrained or a match-all; a match-all bind is none of the first
+			// three and is a match-all segment only when it is the whole segment
+			return "a match-all bind next to other elements of its segment"
 		}
 		for _, b := range s.binds {
 			if seen[b] {
